@@ -409,6 +409,12 @@ func runC13(c *Ctx) {
 			if err := tc.P.Unmarshal(data, typed.Interface()); err != nil {
 				continue
 			}
+			if tc.T.Kind() == reflect.Ptr && v.IsNil() {
+				// a nil pointer passed as the whole value writes nothing at all: there is no
+				// content to compare (Unmarshal of no bytes allocates a zero target instead)
+				c.count("top_level_nil_pointer")
+				continue
+			}
 			want, ok := valueImage(typed.Elem(), descName)
 			if !ok {
 				c.count("image_not_comparable")
